@@ -210,6 +210,7 @@ def c10(rec, tier):
     F = D(rec)
     f10_parity.run_forwarding(rec, F)
     f10_parity.run_forwarded_writes(rec, F)
+    f10_parity.run_scan_covers_stack(rec, F)
     f10_parity.run_stale_after_scan(rec, F)
     # any value works as a map key: equal values hash equal
     f10_parity.run_number_equality(rec, F, "unboxed")
